@@ -208,6 +208,7 @@ func unparen(e ast.Expr) ast.Expr {
 }
 
 func (m *Machine) exec(st ast.Stmt, o *Outcome) []*Outcome {
+	m.noteMarkUses(st, o)
 	undec := func(why string) []*Outcome {
 		o.Undec = append(o.Undec, fmt.Sprintf("%s (%s)", why, m.Pos(st)))
 		return []*Outcome{o}
@@ -314,6 +315,13 @@ func (m *Machine) exec(st ast.Stmt, o *Outcome) []*Outcome {
 		if id, ok := unparen(x.Lhs[0]).(*ast.Ident); ok {
 			// locals: s, base, c, isDocComment, lblStart, lblEnd, _ ; a local that holds a byte of the input is remembered
 			obj := m.info().ObjectOf(id)
+			if obj != nil && m.markSet()[obj] && len(x.Rhs) == 1 {
+				if v, ok := m.lin(x.Rhs[0], o); ok {
+					o.Events = append(o.Events, Event{Kind: "mark", ID: id.Name, P: v, TS: o.TS, TE: o.TE, At: st.Pos()})
+				} else {
+					o.Events = append(o.Events, Event{Kind: "mark-unknown", ID: id.Name, At: st.Pos()})
+				}
+			}
 			if obj != nil {
 				if o.bytes != nil {
 					delete(o.bytes, obj)
@@ -695,4 +703,141 @@ func (m *Machine) helperDecl(call *ast.CallExpr) *ast.FuncDecl {
 		}
 	}
 	return nil
+}
+
+
+// ---- marks: locals of Lex that remember a cursor position between transitions ---------------------
+
+// markSet: the int locals of Lex that some statement assigns a linear expression of the cursor to
+// (lblStart, lblEnd of the heredoc opener).
+func (m *Machine) markSet() map[types.Object]bool {
+	if m.marks != nil {
+		return m.marks
+	}
+	m.marks = map[types.Object]bool{}
+	if m.Lex == nil {
+		return m.marks
+	}
+	info := m.info()
+	ast.Inspect(m.Lex.Body, func(n ast.Node) bool {
+		as, ok := n.(*ast.AssignStmt)
+		if !ok || len(as.Lhs) != 1 || len(as.Rhs) != 1 || as.Tok != token.ASSIGN {
+			return true
+		}
+		id, ok := unparen(as.Lhs[0]).(*ast.Ident)
+		if !ok {
+			return true
+		}
+		obj := info.ObjectOf(id)
+		if obj == nil {
+			return true
+		}
+		if b, ok := obj.Type().Underlying().(*types.Basic); !ok || b.Kind() != types.Int {
+			return true
+		}
+		mentionsCursor := false
+		ast.Inspect(as.Rhs[0], func(y ast.Node) bool {
+			if se, ok := y.(*ast.SelectorExpr); ok {
+				if x, ok := se.X.(*ast.Ident); ok && x.Name == "lex" && se.Sel.Name == "p" {
+					mentionsCursor = true
+				}
+			}
+			return true
+		})
+		if mentionsCursor {
+			m.marks[obj] = true
+		}
+		return true
+	})
+	return m.marks
+}
+
+// noteMarkUses records, for a simple statement or the condition of a compound one, every read of a mark:
+// "usemark" (ID name; K of A = the constant added to it when it indexes lex.data, e.g. -1 for data[lblStart-1])
+// and "useslice" (ID "lo:hi") for lex.data[lo:hi] between two marks.
+func (m *Machine) noteMarkUses(st ast.Stmt, o *Outcome) {
+	marks := m.markSet()
+	if len(marks) == 0 {
+		return
+	}
+	info := m.info()
+	var exprs []ast.Expr
+	switch x := st.(type) {
+	case *ast.AssignStmt:
+		exprs = append(exprs, x.Rhs...)
+		for _, l := range x.Lhs {
+			if _, isId := unparen(l).(*ast.Ident); !isId {
+				exprs = append(exprs, l)
+			}
+		}
+	case *ast.ExprStmt:
+		exprs = append(exprs, x.X)
+	case *ast.IfStmt:
+		exprs = append(exprs, x.Cond)
+	case *ast.SwitchStmt:
+		if x.Tag != nil {
+			exprs = append(exprs, x.Tag)
+		}
+	case *ast.ReturnStmt:
+		exprs = append(exprs, x.Results...)
+	case *ast.IncDecStmt:
+		exprs = append(exprs, x.X)
+	default:
+		return
+	}
+	isMark := func(e ast.Expr) (string, bool) {
+		id, ok := unparen(e).(*ast.Ident)
+		if !ok {
+			return "", false
+		}
+		if obj := info.ObjectOf(id); obj != nil && marks[obj] {
+			return id.Name, true
+		}
+		return "", false
+	}
+	for _, e := range exprs {
+		handled := map[ast.Node]bool{}
+		ast.Inspect(e, func(n ast.Node) bool {
+			switch y := n.(type) {
+			case *ast.SliceExpr:
+				if types.ExprString(unparen(y.X)) == "lex.data" && y.Low != nil && y.High != nil {
+					lo, ok1 := isMark(y.Low)
+					hi, ok2 := isMark(y.High)
+					if ok1 && ok2 {
+						o.Events = append(o.Events, Event{Kind: "useslice", ID: lo + ":" + hi, At: y.Pos()})
+						handled[unparen(y.Low)] = true
+						handled[unparen(y.High)] = true
+					}
+				}
+			case *ast.IndexExpr:
+				if types.ExprString(unparen(y.X)) == "lex.data" {
+					ix := unparen(y.Index)
+					if nm, ok := isMark(ix); ok {
+						o.Events = append(o.Events, Event{Kind: "useidx", ID: nm, A: Lin{}, At: y.Pos()})
+						handled[ix] = true
+					} else if be, ok := ix.(*ast.BinaryExpr); ok && (be.Op == token.ADD || be.Op == token.SUB) {
+						if nm, ok := isMark(be.X); ok {
+							if tv := info.Types[be.Y]; tv.Value != nil {
+								if k, ok := constant.Int64Val(constant.ToInt(tv.Value)); ok {
+									if be.Op == token.SUB {
+										k = -k
+									}
+									o.Events = append(o.Events, Event{Kind: "useidx", ID: nm, A: Lin{K: int(k)}, At: y.Pos()})
+									handled[unparen(be.X)] = true
+								}
+							}
+						}
+					}
+				}
+			case *ast.Ident:
+				if handled[y] {
+					return true
+				}
+				if nm, ok := isMark(y); ok {
+					o.Events = append(o.Events, Event{Kind: "usemark", ID: nm, At: y.Pos()})
+				}
+			}
+			return true
+		})
+	}
 }
